@@ -250,7 +250,7 @@ func init() {
 	extraDrivers["c20-script"] = func(w *World, _ *flag.FlagSet, a driverArgs) int {
 		// enumerate scripts: every sequence of length a.steps over Req(c,img) / Release(img,fail) for 3 callers x 2 images
 		callers := []string{"c1", "c2", "c3"}
-		images := []string{"img1", "img2"}
+		images := []string{"quay.io/verif/app:v1", "quay.io/verif/app:v2"}
 		var alpha []c20Step
 		for _, c := range callers {
 			for _, i := range images {
@@ -380,7 +380,7 @@ func init() {
 					defer wg.Done()
 					rng := rand.New(rand.NewSource(a.seed*100 + int64(i*10+c)))
 					for j := 0; j < a.steps; j++ {
-						img := []string{"img1", "img2"}[rng.Intn(2)]
+						img := []string{"quay.io/verif/app:v1", "quay.io/verif/app:v2"}[rng.Intn(2)]
 						p, err := cw.rm.Pull(context.Background(), img)
 						atomic.AddInt32(&responses, 1)
 						if (p == nil) == (err == nil) {
